@@ -120,6 +120,8 @@ func (st *c18State) checkPoint(i int, ctx string) {
 			st.fail(ctx+":invariant", "%s: P%d: %v", ctx, i, err)
 		} else if !abs.Eq(m) {
 			st.fail(ctx+":value", "%s: P%d denotes %v, model %v", ctx, i, abs, m)
+		} else if msg := observersAgree(p, m); msg != "" {
+			st.fail(ctx+":observers", "%s: P%d has the right raw coordinates but %s", ctx, i, msg)
 		}
 		return
 	}
